@@ -347,8 +347,9 @@ def run(rep, repo, tier):
                     # the closure list is subscripted by project: one variable per project, or the constraint loop runs off its end
                     for a_, (l_, sort_) in sorted(r.canon.arr_letter.items()):
                         if l_ == 'c':
-                            rep.check(sort_ in ('P', None), 'C02.R7', repo.method('Model', 'pulp_setup').where, 'one closure variable is declared per project [stab=%s]' % stab,
-                                      got='one per %s' % {'L': 'lecturer', 'S': 'student', None: 'element of an unrecognised range'}.get(sort_, sort_), want='range(num_projects)',
+                            off_ = r.canon.off_by_some(a_)
+                            rep.check(sort_ in ('P', None) and off_ is None, 'C02.R7', repo.method('Model', 'pulp_setup').where, 'one closure variable is declared per project [stab=%s]' % stab,
+                                      got=('declared for ' + off_) if off_ else 'one per %s' % {'L': 'lecturer', 'S': 'student', None: 'element of an unrecognised range'}.get(sort_, sort_), want='range(num_projects)',
                                       construct='closure variables per %s' % sort_)
     # R5 load-balancing agreement on ordered pairs
     others = ['MAXSIZE', 'GENEROUS', 'MINCOST']
